@@ -28,7 +28,7 @@ CHECKS = {
    note="Bounds: 3 (4) nodes, prefixes {p,q}, URIs {u1,u2}. Inherited bindings on descendants of an attached child are either-of (statement silent). Bulk helpers fix_nsmap/set_nsmap are checked against the frame condition only."),
  "C01": dict(level=MC, engine="E2", design_ref="DESIGN.md section 3 C01",
    technique="per-rule minimal DFA built independently from rules.json; all words up to length L plus Chow W-method conformance suite replayed against validate.node in both modes",
-   text="For every rule the children section is compiled to a minimal DFA (strict and lenient reading); every word of length <= L and the complete W-method suite P.Sigma^<=k.W are executed on the real validator in fail-fast and collecting mode. The suite is complete for any finite-state validator with up to k extra states, so agreement is established for all finite sequences under that fault model and outright for all short ones.",
+   text="For every rule the children section is compiled to a minimal DFA (strict and lenient reading); every word of length <= L and the complete W-method suite P.Sigma^<=k.W are executed on the real validator in fail-fast and collecting mode. The suite is complete for any finite-state validator with up to k extra states, so agreement is established for all finite sequences under that fault model and outright for all short ones. Each word is additionally validated through one Rule object re-used for the whole work item and into an error list that already holds other nodes' entries; decisions must not depend on either.",
    note="Fault model of the W-method (deterministic finite acceptor, <= k extra states; k=1 quick, 2-3 thorough); my regex->DFA pipeline is cross-checked against a direct regex matcher in setup; unspecified zone = strict/lenient difference."),
 }
 
@@ -39,17 +39,17 @@ CHECKS["C17"] = dict(level=MC, engine="E2", design_ref="DESIGN.md section 3 C17"
 
 CHECKS["C10"] = dict(level=MC, engine="E2", design_ref="DESIGN.md section 3 C10",
    technique="complete enumeration of the shipped tables: BFS over the element graph, structural grammar, least-fixpoint satisfiability with DFA-generated witnesses validated by the real validate.tree",
-   text="The space is finite (224 names, 107 rules) and enumerated completely: every mapping, every rule's structure, every child name of every reachable rule, and a witness tree per element / per permitted child / per useful DFA transition that the real whole-tree validator must accept.",
+   text="The space is finite (224 names, 107 rules) and enumerated completely: every mapping, every rule's structure, every child name of every reachable rule, and a witness tree per element / per permitted child / per useful DFA transition that the real whole-tree validator must accept. A table-integrity phase validates every rule with every kind of fault, introspects and computes insertion indices, then requires the in-memory table to equal rules.json; rule.node_names() must list exactly the mapped names.",
    note="Witness generation relies on my DFA of each rule (cross-checked by C01); three permitted-but-unknown child names are recorded as open known findings F9a-c.")
 
 CHECKS["C02"] = dict(level=EX, engine="E4", design_ref="DESIGN.md section 3 C02",
    technique="exhaustive bounded string enumeration per content kind against hand-written three-valued recognisers, both validation modes",
-   text="For every rule every string up to length n over a kind-specific alphabet (numeric kinds 17 symbols, time 13, date 7) plus complete boundary/template products (range ends, rounding sliver, NaN/inf, leap years, zone offsets, URI scheme x host x port x path) and None is validated in both modes and compared with independent recognisers that use none of the Python parsers.",
+   text="For every rule every string up to length n over a kind-specific alphabet (numeric kinds 17 symbols, time 13, date 7) plus complete boundary/template products (range ends, rounding sliver, NaN/inf, leap years, zone offsets, URI scheme x host x port x path) and None is validated in both modes and compared with independent recognisers that use none of the Python parsers. Each case is also validated into a pre-filled error list and through a re-used Rule object.",
    note="Alphabets and lengths bound the space; the recognisers' lenient envelopes are checked at run time to contain whatever float()/int() accept so that 'must-reject' never over-demands; unspecified zones listed in DESIGN.md.")
 
 CHECKS["C03"] = dict(level=EX, engine="E3", design_ref="DESIGN.md section 3 C03",
    technique="full Cartesian product of attribute assignments per rule over the abstraction {absent, each listed value, unlisted value} x foreign attribute x insertion orders",
-   text="The abstraction named in the property's quantifier is finite and is enumerated completely for all rules, including all insertion orders for small assignments, in both modes; collecting-mode errors are compared as a multiset of (code, attribute) with an independent reading of the table; introspection queries are compared with the same table.",
+   text="The abstraction named in the property's quantifier is finite and is enumerated completely for all rules, including all insertion orders for small assignments, in both modes; collecting-mode errors are compared as a multiset of (code, attribute) with an independent reading of the table; introspection queries are compared with the same table. Unlisted values include near-misses of listed ones (empty string, proper prefix/suffix, changed case, two listed values joined); a re-used Rule object and a pre-filled error list are driven too, and all rules' introspection queries are asked in one process in both orders so that an answer cannot depend on which rule was asked before.",
    note="Attribute values are strings; content and children are kept valid so any error is an attribute error.")
 
 CHECKS["C04"] = dict(level=EX, engine="E3", design_ref="DESIGN.md section 3 C04",
@@ -79,12 +79,12 @@ CHECKS["C08"] = dict(level=EX, engine="E3", design_ref="DESIGN.md section 3 C08"
 
 CHECKS["C12"] = dict(level=EX, engine="E3", design_ref="DESIGN.md section 3 C12",
    technique="exhaustive enumeration of tree shapes x copied node x (side, node, single edit) with deep-snapshot frame condition",
-   text="For every ordered tree shape up to 5 (7) nodes in three field populations (including namespace maps whose dict objects are shared across the original), every node is copied; the copy must be equal field-wise, consist of fresh registered nodes with inner parent links, and every single edit of a 20-entry menu (setters, add/remove attribute, in-place dict and list mutation, namespace declare/re-declare/remove, child add/remove/clear/shift) applied to any node of either side must leave the other side's deep snapshot unchanged.",
+   text="For every ordered tree shape up to 5 (7) nodes in three field populations (including namespace maps whose dict objects are shared across the original), every node is copied; the copy must be equal field-wise, consist of fresh registered nodes with inner parent links, and every single edit of a 20-entry menu (setters, add/remove attribute, in-place dict and list mutation, namespace declare/re-declare/remove, child add/remove/clear/shift) applied to any node of either side must leave the other side's deep snapshot unchanged. A second copy and a copy of the copy must again have fresh registered ids; variants in which a child lacks a prefix of its parent or one node was taken out of the registry before copying are included.",
    note="One edit at a time after the copy; the edit menu is the bound on 'any later edit'.")
 
 CHECKS["C18"] = dict(level=EX, engine="E3", design_ref="DESIGN.md section 3 C18",
    technique="exhaustive enumeration of tree shapes x (node, single-field difference) pairs and (node, edit-after-copy) pairs, both argument orders",
-   text="For every ordered tree shape up to 6 (8) nodes with all fields populated: twins and copies must compare equal; every pair differing in exactly one field of exactly one node (28 difference kinds over name, content incl. ''/None, tail, attributes, extras, prefix, nsmap, children added/removed/swapped) must compare unequal, symmetrically; a copy must stop being equal after any one edit anywhere on either side.",
+   text="For every ordered tree shape up to 6 (8) nodes with all fields populated: twins and copies must compare equal; every pair differing in exactly one field of exactly one node (28 difference kinds over name, content incl. ''/None, tail, attributes, extras, prefix, nsmap, children added/removed/swapped) must compare unequal, symmetrically; a copy must stop being equal after any one edit anywhere on either side. Sparse populations, trees in which a child lacks a prefix of its parent or owns a map equal to the one its twin shares, and a JSON reload (distinct tree, same node ids) are compared too.",
    note="Same-object comparison and dict-order-only differences are outside the statement.")
 
 CHECKS["C20"] = dict(level=EX, engine="E4", design_ref="DESIGN.md section 3 C20",
@@ -99,20 +99,20 @@ CHECKS["C15"] = dict(level=EX, engine="E3", design_ref="DESIGN.md section 3 C15"
 
 CHECKS["C16"] = dict(level="fault_enumeration", engine="E3", design_ref="DESIGN.md section 3 C16",
    technique="exhaustive enumeration of referenced/referencing arrangements in every document order x every single-fault placement (dangling reference, duplicated id), with reference substitution, identity snapshots and atomicity oracle",
-   text="All assignments of roles to 2-4 (5) party slots of a dataset (referenced with three child sets, referencing with every choice of target, references before and after their target, several references to one id), with-role parties carrying one or two roles, attributeList and dataTable references; for each arrangement the fault-free expansion is compared with a spec-level substitution plus identity/registry/parent-link/validity/independence checks, and every placement of one dangling reference or duplicated id must raise ValueError leaving tree and registry exactly as before.",
+   text="All assignments of roles to 2-4 (5) party slots of a dataset (referenced with three child sets, referencing with every choice of target, references before and after their target, several references to one id), with-role parties carrying one or two roles, attributeList and dataTable references; for each arrangement the fault-free expansion is compared with a spec-level substitution plus identity/registry/parent-link/validity/independence checks, and every placement of one dangling reference or duplicated id must raise ValueError leaving tree and registry exactly as before. Referenced elements without children and trees whose namespace map mixes the default namespace with prefixes are included.",
    note="Precondition of the statement is built into the generator; slots per skeleton and the reduced independence edit menu are the bounds.")
 
 CHECKS["C14"] = dict(level=MC, engine="E1", design_ref="DESIGN.md section 3 C14",
    technique="explicit-state BFS (depth-bounded) over create/copy/import/attach/replace/delete/prune/expand histories, lock-step with a set model of the registry",
-   text="Every history up to depth 6 (7) with at most 10 (12) live nodes over 7 creation templates, 3 XML imports, copy of any node, attach, replace with and without deletion, delete by id with and without descendants (including nodes whose descendants were already deleted), prune in both modes and expand is executed on the real code; after every transition Node.store must equal the model's live set, every id must map to its node and all ids ever created must be distinct; nodes discarded by prune/expand/replace must be gone and nodes still in a tree must not be unregistered by them.",
+   text="Every history up to depth 6 (7) with at most 10 (12) live nodes over 7 creation templates, 3 XML imports, copy of any node, attach, replace with and without deletion, delete by id with and without descendants (including nodes whose descendants were already deleted), prune in both modes and expand is executed on the real code; after every transition Node.store must equal the model's live set, every id must map to its node and all ids ever created must be distinct; nodes discarded by prune/expand/replace must be gone and nodes still in a tree must not be unregistered by them. Histories also create nodes that only the registry refers to (a cycle collection runs before the invariant), import a JSON model with null ids, and attempt a failing replace-with-deletion on a node attached elsewhere.",
    note="Depth and live-node cap bound the search (reported as a cap, not a fixpoint); which nodes prune/expand take out of the tree is judged by C15/C16; uuid1 uniqueness is observed only.")
 
 CHECKS["C11"] = dict(level=MC, engine="E1", design_ref="DESIGN.md section 3 C11",
    technique="exhaustive exploration of all operation sequences up to length k on a self-loop state graph (one state per base tree), identity-based deep snapshot as invariant plus result-independence check",
-   text="For 38 base trees (tests/data/eml.xml, generated witnesses, trees with markup characters / pre-escaped entities / para tags, invalid trees, trees with extras, prefixes and shared namespace maps) every sequence of up to 2 (3) of 22 read-only operation groups (both validators in both modes on the tree and on every node, evaluation, three JSON/XML exporters each, both graph renderers, str/repr, every search query on every node, insertion-index and allowed-child queries for every parent x candidate, structural comparison) is executed on a fresh tree; the snapshot of every field of every node, child and parent identities and the registry must never change and results must not depend on what ran before.",
+   text="For 38 base trees (tests/data/eml.xml, generated witnesses, trees with markup characters / pre-escaped entities / para tags, invalid trees, trees with extras, prefixes and shared namespace maps) every sequence of up to 2 (3) of 22 read-only operation groups (both validators in both modes on the tree and on every node, evaluation, three JSON/XML exporters each, both graph renderers, str/repr, every search query on every node, insertion-index and allowed-child queries for every parent x candidate, structural comparison) is executed on a fresh tree; the snapshot of every field of every node, child and parent identities and the registry must never change and results must not depend on what ran before. Operations include asking the insertion index of an already attached child; base trees include a document with a default namespace and unusual-but-legitimate variants of a rich EML document.",
    note="Sequence length k and the set of base trees are the bound; nsmap dict aliasing is not part of the snapshot (not observable).")
 
 CHECKS["C19"] = dict(level=EX, engine="E3", design_ref="DESIGN.md section 3 C19",
    technique="exhaustive enumeration of a parametric valid EML tree over the knobs each evaluator reads (full product per evaluator, all pairs across evaluators) plus generated witnesses and their one-mutation neighbours, against an independent re-statement of the recommendations",
-   text="A valid EML tree (checked by validate.tree) is varied over every knob on and around each threshold: abstract form x 0/1/19/20/21 words, title 0/1/4/5/6 words in and outside a dataset, keyword sets 0/4/5/2+2/2+3/6, each responsible-party kind x user id {none, ORCID, other, empty, both} x e-mail x name, entity descriptions, data-table physical/size/checksum/record count/record delimiter (direct and under textFormat), descriptions under every listed known parent; evaluate.tree and evaluate.node must not raise, must append only (code, message, node) triples after existing entries, and the multiset of (code, node) must equal the independent oracle. Witness trees and their mutants built from known names extend totality.",
+   text="A valid EML tree (checked by validate.tree) is varied over every knob on and around each threshold: abstract form x 0/1/19/20/21 words, title 0/1/4/5/6 words in and outside a dataset, keyword sets 0/4/5/2+2/2+3/6, each responsible-party kind x user id {none, ORCID, other, empty, both} x e-mail x name, entity descriptions, data-table physical/size/checksum/record count/record delimiter (direct and under textFormat), descriptions under every listed known parent; evaluate.tree and evaluate.node must not raise, must append only (code, message, node) triples after existing entries, and the multiset of (code, node) must equal the independent oracle. Witness trees and their mutants built from known names extend totality. Titles use ten different word separators; entity-level methods/coverage and a project-level abstract/related project act as look-alikes of dataset-level elements; every tree is evaluated twice into the same list.",
    note="Unspecified zones (listed in the evidence assumptions) are skipped per node, not per tree; message strings are not compared.")
